@@ -399,7 +399,26 @@ def c11_lsf_poly(ctx, case):
     a[0] = 1.0
     back = np.asarray(lp.poly2lsf(a.copy()), dtype=float)
     ctx.check(back.shape == (p,), "poly2lsf returned %s values for order %d" % (back.shape, p))
-    ctx.close(back, lsf, "poly2lsf(lsf2poly(lsf)) vs lsf", rtol=0, atol=1e-11 / mingap ** 2)
+    # tolerance from the conditioning of the roots poly2lsf has to find: the frequencies are the angles of the unit-circle
+    # roots of the sum and difference polynomials (alternate frequencies); a root z_i of f moves by eps sum|c_f| / |f'(z_i)|,
+    # f'(z_i) = prod_{j != i} (z_i - z_j).  Observed on the unchanged code: <= 1e-12 + 160 eps kappa_i (30 000 cases); allowed:
+    # 1e-11 + 2000 eps kappa_i.  (The earlier bound 1e-11 / mingap^2 ignored clustering: seven frequencies within 0.35 rad of
+    # pi have kappa = 6e7 at a smallest gap of 0.03, observed error 1.6e-8 = 1.3 eps kappa -- a false alarm of a thorough run.)
+    kap = np.zeros(p)
+    for start in (0, 1):
+        w = lsf[start::2]
+        if len(w) == 0:
+            continue
+        z = np.concatenate((np.exp(1j * w), np.exp(-1j * w)))
+        csum = float(np.sum(np.abs(np.real(np.poly(z)))))
+        for i in range(len(w)):
+            kap[start + 2 * i] = csum / float(np.prod(np.abs(z[i] - np.delete(z, i))))
+    tol = 1e-11 + 2000 * 2.2e-16 * kap
+    err = np.abs(back - lsf)
+    if np.any(err > tol):
+        i = int(np.argmax(err / tol))
+        ctx.fail("poly2lsf(lsf2poly(lsf)) vs lsf: entry %d differs: got %r expected %r (|d|=%.3g, allowed %.3g for a root of condition %.3g)"
+                 % (i, back[i], lsf[i], err[i], tol[i], kap[i]))
 
 
 # ----------------------------------------------------------------------------
